@@ -98,12 +98,18 @@ func (s *composeSlice) build() {
 		case "limiter":
 			s.policies = append(s.policies, s.limiters[int(atoi(t[1]))])
 		case "fallback":
-			var b fallback.FallbackBuilder[int]
+			// WithFunc (what WithResult / WithError reduce to), so that the function's view of the failed outcome is observed
+			var fbVal int
+			var fbErr error
 			if t[1] == "v" {
-				b = fallback.BuilderWithResult[int](int(atoi(t[2])))
+				fbVal = int(atoi(t[2]))
 			} else {
-				b = fallback.BuilderWithError[int](parseErrTree(t[2]))
+				fbErr = parseErrTree(t[2])
 			}
+			b := fallback.BuilderWithFunc[int](func(exec failsafe.Execution[int]) (int, error) {
+				s.emit(fmt.Sprintf("fb.fn[%d,%s]", exec.LastResult(), errTreeStr(exec.LastError())), pos, exec.Attempts(), exec.Executions())
+				return fbVal, fbErr
+			})
 			applyConds(t[3], func(e ...error) { b.HandleErrors(e...) }, func(a ...any) { b.HandleErrorTypes(a...) }, func(r int) { b.HandleResult(r) }, func(p func(int, error) bool) { b.HandleIf(p) })
 			b.OnFailure(func(e failsafe.ExecutionEvent[int]) { s.emit("fb.onFailure", pos, e.Attempts(), e.Executions()) }).
 				OnSuccess(func(e failsafe.ExecutionEvent[int]) { s.emit("fb.onSuccess", pos, e.Attempts(), e.Executions()) }).
@@ -303,6 +309,7 @@ func (s *composeSlice) run(async bool, ck string, scriptText string) string {
 	fn := func(exec failsafe.Execution[int]) (int, error) {
 		wg.Add(1)
 		defer wg.Done()
+		s.emit(fmt.Sprintf("fn[%d,%s]", exec.LastResult(), errTreeStr(exec.LastError())), 0, exec.Attempts(), exec.Executions())
 		fnMu.Lock()
 		inv++
 		if inv > 3000 {
